@@ -1281,6 +1281,159 @@ def domain_bound_cases(rng):
     return out
 
 
+# ----------------------------------------------------------------------------- histories on ONE Problem object
+#
+# After every step of a history the extraction of the (mutated, possibly cache-carrying) Problem must equal the
+# extraction of a FRESH Problem built from the current model, and must satisfy the oracle.  A history is a pure
+# function of its seed, so a replay file only needs the seed.
+
+HIST_NAMES = ["a0", "audit", "b", "hold", "k[0]", "k[1]", "k[2]", "m", "ship", "t10", "t9", "waste", "z"]
+
+
+def fresh_copy(P):
+    from optyx import Problem
+
+    Q = Problem()
+    if P.objective is not None:
+        (Q.minimize if P.sense == "minimize" else Q.maximize)(P.objective)
+    for c in P.constraints:
+        Q.subject_to(c)
+    return Q
+
+
+def run_history(hseed, want_lines=False):
+    """returns (failures, steps_done, lines) — lines = [(protocol line of the current model, extraction text)]"""
+    from optyx import Problem, Variable, VectorVariable
+    from optyx.core.expressions import Constant
+
+    rng = core.Rng(hseed)
+    b = lambda: rng.choice([None, None, 0, -1.5, 2.0, 8, 0.25])
+    vec = VectorVariable("k", 3, lb=b(), ub=b())
+    scal = {n: Variable(n, lb=b(), ub=b()) for n in HIST_NAMES if not n.startswith("k[")}
+    byname = dict(scal)
+    byname.update({v.name: v for v in vec})
+    names = sorted(byname)
+
+    def lin(vs, const=True):
+        e = None
+        for v in vs:
+            t = rng.choice([lambda: dy(rng) * v, lambda: v * dy(rng), lambda: v, lambda: -v, lambda: v / p2(rng), lambda: (Constant(2) + 1) * v])()
+            e = t if e is None else (e + t if rng.random() < 0.7 else e - t)
+        if e is None:
+            e = Constant(dy(rng))
+        if const and rng.random() < 0.5:
+            e = e + dy(rng)
+        return e
+
+    def objective_over(vs):
+        r = rng.random()
+        if r < 0.2 and all(v.name.startswith("k[") for v in vs) and len(vs) == 3:
+            return rng.choice([lambda: vec.sum(), lambda: np.array([dy(rng) for _ in range(3)]) @ vec, lambda: np.array([1.0, 2.0, 4.0]) @ vec[::-1] - 1])()
+        return lin(vs)
+
+    def constraint_over(vs):
+        lhs = lin(vs)
+        rhs = rng.choice([lambda: dy(rng), lambda: lin(vs[:1], False), lambda: dy(rng)])()
+        s = rng.choice(["<=", ">=", "=="])
+        return (lhs <= rhs) if s == "<=" else (lhs >= rhs) if s == ">=" else lhs.eq(rhs)
+
+    # the model: constraint variables C, plus one objective-only variable that later moves to the other side of C
+    k = rng.randint(1, 4)
+    mid = sorted(rng.sample(names[2:-2], k))
+    C = [byname[n] for n in mid]
+    lo = [n for n in names if n < mid[0]]
+    hi = [n for n in names if n > mid[-1]]
+    inner = [n for n in names if mid[0] < n < mid[-1] and n not in mid]
+    P = Problem()
+    only = byname[rng.choice(hi if rng.random() < 0.5 else lo)]
+    (P.minimize if rng.random() < 0.5 else P.maximize)(objective_over(C + [only]) if rng.random() < 0.8 else objective_over([only]))
+    for _ in range(rng.randint(1, 3)):
+        P.subject_to(constraint_over(rng.sample(C, rng.randint(1, len(C)))))
+
+    fails, lines = [], []
+    steps = []
+
+    def observe(step):
+        lpH, exH = extract_real(P)
+        tH = lp_text(lpH) if lpH is not None else err_text(exH)
+        Q = fresh_copy(P)
+        lpF, exF = extract_real(Q)
+        tF = lp_text(lpF) if lpF is not None else err_text(exF)
+        where = {"history_seed": hseed, "step": len(steps), "steps": list(steps), "after": step}
+        if tH != tF:
+            fails.append({"what": "extraction of the Problem after this history differs from the extraction of a fresh Problem "
+                                  "built from the current model", "history": tH[:600], "fresh": tF[:600], **where})
+        if lpH is not None:
+            for f in lp_oracle(P, lpH, rng, "history"):
+                f.update(where)
+                fails.append(f)
+        if want_lines:
+            try:
+                lines.append((problem_line(Q, Ids()), tH))
+            except Unsupported:
+                pass
+        return lpH
+
+    steps.append("build")
+    observe("build")
+    for _ in range(rng.randint(2, 6)):
+        if fails:
+            break
+        op = rng.choice(["swap-objective-same-size", "swap-objective-same-size", "swap-objective-same-size", "objective-other-size", "add-constraint",
+                         "add-constraint-new-var", "edit-bounds", "flip-sense", "same-objective-again", "solve", "read-only"])
+        try:
+            if op == "swap-objective-same-size":
+                # a variable used only by the old objective drops out, a new objective-only variable on the OTHER side (or
+                # inside the span) of the constraint variables comes in: same number of columns, shifted layout
+                pool = [n for n in (lo + hi + inner) if n != only.name]
+                other_side = [n for n in pool if (n < mid[0]) != (only.name < mid[0])] or pool
+                only = byname[rng.choice(other_side if rng.random() < 0.8 else pool)]
+                keep = C if rng.random() < 0.7 else rng.sample(C, rng.randint(0, len(C)))
+                (P.minimize if rng.random() < 0.5 else P.maximize)(objective_over(list(keep) + [only]))
+            elif op == "objective-other-size":
+                extra = [byname[n] for n in rng.sample(lo + hi + inner, rng.randint(0, 3))]
+                (P.minimize if rng.random() < 0.5 else P.maximize)(objective_over(rng.sample(C, rng.randint(0, len(C))) + extra))
+            elif op == "add-constraint":
+                P.subject_to(constraint_over(rng.sample(C, rng.randint(1, len(C)))))
+            elif op == "add-constraint-new-var":
+                P.subject_to(constraint_over(rng.sample(C, 1) + [byname[rng.choice(lo + hi + inner)]]))
+            elif op == "edit-bounds":
+                v = rng.choice(P.variables) if P.variables else only
+                v.lb, v.ub = rng.choice([None, -2.5, 0.0, 0.5]), rng.choice([None, 3.5, 7.25, 1e16])
+            elif op == "flip-sense":
+                (P.maximize if P.sense == "minimize" else P.minimize)(P.objective)
+            elif op == "same-objective-again":
+                (P.minimize if P.sense == "minimize" else P.maximize)(P.objective)
+            elif op == "solve":
+                with warnings.catch_warnings(), np.errstate(all="ignore"):
+                    warnings.simplefilter("ignore")
+                    try:
+                        P.solve()
+                    except Exception:  # noqa: BLE001   (unbounded / infeasible models etc. are not this property's business)
+                        pass
+                cached = getattr(P, "_lp_cache", None)
+                if cached is not None:
+                    lpF, _ = extract_real(fresh_copy(P))
+                    if lpF is not None and lp_text(cached) != lp_text(lpF):
+                        fails.append({"what": "the LP cached by solve() differs from the extraction of a fresh Problem of the current model",
+                                      "cached": lp_text(cached)[:600], "fresh": lp_text(lpF)[:600], "history_seed": hseed, "steps": list(steps) + [op]})
+            else:
+                _ = (P.variables, P.n_variables, P.n_constraints, P.get_bounds(), repr(P), P._is_linear_problem())
+                if hasattr(P, "summary"):
+                    try:
+                        P.summary()
+                    except Exception:  # noqa: BLE001
+                        pass
+        except RecursionError:
+            raise
+        except Exception as ex:  # noqa: BLE001
+            steps.append(f"{op}: raised {type(ex).__name__}")
+            continue
+        steps.append(op)
+        observe(op)
+    return fails, len(steps), lines
+
+
 class SkipPoint(Exception):
     pass
 
@@ -1653,7 +1806,10 @@ def run(ctx) -> core.Report:
         names = [v.name for v in P.variables]
         sub = []
         S = Ser(ids)
-        for e in exprs[:4]:
+        # stand-alone function commands: all expressions for the small hand-written / random problems, two for the big
+        # systematic families (their LPs are compared as a whole, most of them also against an exact recipe)
+        heavy = tag.split(":")[0] in ("fixed2", "constfold", "overlap", "overlap3", "wrap", "view", "typed", "dombounds", "shared", "deep")
+        for e in exprs[:(2 if heavy and not thorough else 4)]:
             s = S.expr(e)
             # (order, invariant): the second component says whether the order is one Problem.variables can
             # produce (sorted); under a permuted order the shortcuts may fire although the vector is not the
@@ -1678,7 +1834,31 @@ def run(ctx) -> core.Report:
                 sub.append(("coeff1", e, nm, len(lines)))
                 lines.append(f"coeff1 {s} {quote(nm)}")
         metas.append((case, idx, sub))
+    # histories on one Problem object (each a pure function of its seed)
+    n_hist = 2500 if thorough else 200
+    hist_lines = []
+    for _ in range(n_hist):
+        hseed = rng.getrandbits(40)
+        try:
+            hf, nsteps, hl = run_history(hseed, want_lines=True)
+        except RecursionError:
+            raise
+        except Exception as ex:  # noqa: BLE001
+            rep.skipped[f"history: construction raised {type(ex).__name__}"] = rep.skipped.get(f"history: construction raised {type(ex).__name__}", 0) + 1
+            continue
+        rep.evaluations += nsteps
+        rep.histogram["history steps (extraction vs fresh problem)"] = rep.histogram.get("history steps (extraction vs fresh problem)", 0) + nsteps
+        for f in hf:
+            f.update({"tag": "history", "kind_of_input": "history"})
+            rep.oracle_failures.append(f)
+        for ln, txt in hl:
+            hist_lines.append((len(lines), txt, hseed))
+            lines.append(ln)
     outs = run_lean_unit(lines)
+    for li, txt, hseed in hist_lines:
+        if outs[li] != txt and "RecursionError" not in txt:
+            rep.corr_mismatches.append({"tag": "history", "history_seed": hseed, "problem": lines[li][:1500], "problem_full": lines[li],
+                                        "impl": txt[:700], "model": outs[li][:700]})
 
     for case, idx, sub in metas:
         tag, P = case.tag, case.P
@@ -1822,6 +2002,16 @@ def search(ctx, rep):
         f = judge(Case("mismatch:" + str(mm.get("tag")), P), rounds=8)
         if f:
             return f
+    hseeds = [mm["history_seed"] for mm in rep.corr_mismatches if mm.get("history_seed") is not None]
+    for hseed in hseeds[:200] + [rng.getrandbits(40) for _ in range(3000)]:
+        try:
+            hf, _, _ = run_history(hseed)
+        except Exception:  # noqa: BLE001
+            continue
+        if hf:
+            f = hf[0]
+            f.update({"tag": "history"})
+            return f
     for fam in (typed_cases, wrapper_cases, view_cases, magnitude_cases, overlap_cases, domain_bound_cases):
         for r in fam(rng):
             if isinstance(r, Case):
@@ -1870,6 +2060,12 @@ def rebuild_problem(line):
 
 def replay(payload) -> bool:
     f = payload["failure"]
+    if f.get("history_seed") is not None:
+        hf, nsteps, _ = run_history(int(f["history_seed"]))
+        print(f"history {f['history_seed']}: {nsteps} steps")
+        for x in hf:
+            print("FAIL:", {k: (str(v)[:300]) for k, v in x.items()})
+        return not hf
     line = f.get("problem")
     dag = f.get("dag")
     if isinstance(dag, dict) and "nodes" in dag:
